@@ -41,12 +41,21 @@ Section CodecLaw.
 
   Lemma codec_inverse : forall cs v g,
     bytes_shape cs -> convert (cs_in cs) v = Ok g ->
+    (forall f, cs_len cs = Some f -> forall b, f (length b) = length (strip_nl (enc b))) ->
     codec_decode dec cs (codec_encode enc cs v) = mk_content (cs_out cs) (content_of g) /\
     veq (mk_content (cs_out cs) (content_of g)) v = true.
   Proof.
-    intros cs v g [Hin Hmid] Hc. unfold codec_encode. rewrite Hc.
+    intros cs v g [Hin Hmid] Hc Hlen. unfold codec_encode. rewrite Hc.
     destruct (convert_mk_content (cs_in cs) (cs_mid cs) (enc (content_of g)) Hin Hmid) as [g' [Hg' Hc']].
-    unfold codec_decode. rewrite Hg', Hc', law. split; [reflexivity|].
+    unfold codec_decode. rewrite Hg', Hc', law.
+    assert (Hres : match cs_len cs with
+                   | Some f => if Nat.eqb (f (length (content_of g))) (length (strip_nl (enc (content_of g))))
+                               then mk_content (cs_out cs) (content_of g) else OErr EValue
+                   | None => mk_content (cs_out cs) (content_of g)
+                   end = mk_content (cs_out cs) (content_of g)).
+    { destruct (cs_len cs) as [f|] eqn:L; [|reflexivity].
+      rewrite (Hlen f eq_refl (content_of g)), Nat.eqb_refl. reflexivity. }
+    rewrite Hres. split; [reflexivity|].
     destruct (convert_content _ _ _ Hin Hc) as [Hv _].
     destruct (cs_out cs); simpl; rewrite Hv; apply bytes_eqb_refl.
   Qed.
@@ -57,6 +66,16 @@ Section CodecLaw.
     codec_encode enc cs v = OErr e /\ codec_decode dec cs v = OErr e.
   Proof. intros cs v e H. unfold codec_encode, codec_decode. rewrite H. split; reflexivity. Qed.
 End CodecLaw.
+
+(* decode's own canonical-length check rejects what the Go decoder let through *)
+Lemma codec_rejects_noncanonical : forall dec cs v g b f,
+  convert (cs_in cs) v = Ok g -> dec (content_of g) = inl b -> cs_len cs = Some f ->
+  f (length b) <> length (strip_nl (content_of g)) ->
+  codec_decode dec cs v = OErr EValue.
+Proof.
+  intros dec cs v g b f H D L N. unfold codec_decode. rewrite H, D, L.
+  apply Nat.eqb_neq in N. rewrite N. reflexivity.
+Qed.
 
 (* what the decoder rejects is reported as an error object *)
 Lemma codec_rejects : forall dec cs v g t,
@@ -347,12 +366,12 @@ Proof.
 Qed.
 
 Lemma json_roundtrip_safe : forall v,
-  json_safe v = true -> not_nil v = true ->
+  json_safe v = true ->
   exists v', json_roundtrip v = Some v' /\ veq v' v = true.
 Proof.
-  intros v S N. destruct (json_rt_safe false v S) as [j [Hj Ej]].
+  intros v S. destruct (json_rt_safe false v S) as [j [Hj Ej]].
   exists (of_jv j). split; [|assumption].
-  unfold json_roundtrip, json_encode. destruct v; try discriminate; rewrite Hj; reflexivity.
+  unfold json_roundtrip, json_encode. rewrite Hj. reflexivity.
 Qed.
 
 (* json.marshal and the json codec produce the same JSON on the JSON domain *)
@@ -370,12 +389,8 @@ Proof.
     apply andb_true_iff in D. destruct D as [D1 D2]. rewrite (Hx D1), (IH D2). reflexivity.
 Qed.
 
-Lemma json_agree : forall v,
-  json_dom v = true -> not_nil v = true -> json_marshal v = json_encode v.
-Proof.
-  intros v D N. unfold json_marshal, json_encode. rewrite (to_jv_agree v D).
-  destruct v; try reflexivity; discriminate.
-Qed.
+Lemma json_agree : forall v, json_dom v = true -> json_marshal v = json_encode v.
+Proof. intros v D. unfold json_marshal, json_encode. apply to_jv_agree. assumption. Qed.
 
 Lemma json_decoders_agree : forall parse v,
   err_blind (json_unmarshal parse v) = err_blind (json_decode parse v).
